@@ -188,7 +188,7 @@ package testscript
 //@   ensures forall K {at(ts.archive.Files,K)} :: lo(ts.archive.Files) <= K && K < hi(ts.archive.Files) ==> sameStr(at(ts.archive.Files,K).Name, old(at(ts.archive.Files,K)).Name) && (!mapkeys(ts.scriptUpdates)[at(ts.archive.Files,K).Name] ==> sameSlice(at(ts.archive.Files,K).Data, old(at(ts.archive.Files,K)).Data))
 
 // ---- C01: verdict logic ----
-//@ property C01: (*TestScript).run, (*TestScript).runLine, (*TestScript).Fatalf, catchFailNow, (*TestScript).cmdExists, scriptMatch, (*TestScript).MkAbs, (*TestScript).Check, (*TestScript).condition, (*TestScript).cmdExec, (*TestScript).cmdCd, (*TestScript).cmdChmod, (*TestScript).cmdCp, (*TestScript).cmdMkdir, (*TestScript).cmdMv, (*TestScript).cmdRm, (*TestScript).cmdSymlink, (*TestScript).cmdUnquote, (*TestScript).cmdUNIX2DOS, (*TestScript).cmdStdin, (*TestScript).cmdStop, (*TestScript).cmdCmp, (*TestScript).cmdCmpenv, (*TestScript).cmdWait, (*TestScript).cmdSkip, (*TestScript).cmdStdout, (*TestScript).cmdStderr, (*TestScript).cmdGrep, (*TestScript).cmdTtyout, (*TestScript).Chdir, (*TestScript).ReadFile, cmd/testscript/(*runT).Run, cmd/testscript/Run$1, RunMain$1
+//@ property C01: (*TestScript).run, (*TestScript).runLine, (*TestScript).Fatalf, catchFailNow, (*TestScript).cmdExists, scriptMatch, (*TestScript).MkAbs, (*TestScript).Check, (*TestScript).condition, (*TestScript).cmdExec, (*TestScript).cmdCd, (*TestScript).cmdChmod, (*TestScript).cmdCp, (*TestScript).cmdMkdir, (*TestScript).cmdMv, (*TestScript).cmdRm, (*TestScript).cmdSymlink, (*TestScript).cmdUnquote, (*TestScript).cmdUNIX2DOS, (*TestScript).cmdStdin, (*TestScript).cmdStop, (*TestScript).cmdCmp, (*TestScript).cmdCmpenv, (*TestScript).cmdWait, (*TestScript).cmdSkip, (*TestScript).cmdStdout, (*TestScript).cmdStderr, (*TestScript).cmdGrep, (*TestScript).cmdTtyout, (*TestScript).Chdir, (*TestScript).ReadFile, cmd/testscript/(*runT).Run, cmd/testscript/Run$1, RunMain$1, (*TestScript).cmdKill
 
 //@ extern (github.com/rogpeppe/go-internal/testscript.T).FailNow(t)
 //@   noreturn
@@ -657,6 +657,21 @@ package testscript
 //@ func (*TestScript).cmdCmpenv
 //@   requires ts != nil && ts.envMap != nil && ts.scriptUpdates != nil && ts.scriptFiles != ts.scriptUpdates
 //@   ensures len(args) == 2
+// kill: a normal return means the command was not negated, had at most two arguments, and
+// a named process was the one signalled (the name is the first argument unless that is a
+// -SIGNAL option, then the second); all processes are signalled only when that name is
+// absent or empty
+//@ func (*TestScript).cmdKill
+//@   requires ts != nil
+//@   at call (*testscript.TestScript).killBackgroundOne#1: requires len(args) >= 1 && ((sameStr(bgName, args[0]) && !(len(args[0]) > 0 && args[0][0] == '-')) || (len(args) == 2 && len(args[0]) > 0 && args[0][0] == '-' && sameStr(bgName, args[1])))
+//@   at call (*testscript.TestScript).killBackground#1: requires len(args) == 0 || len(args[0]) == 0 || (args[0][0] == '-' && (len(args) == 1 || len(args[1]) == 0))
+//@   ensures !neg && len(args) <= 2
+//@ func (*TestScript).killBackgroundOne
+//@   trusted
+//@   requires ts != nil
+//@ func (*TestScript).killBackground
+//@   trusted
+//@   requires ts != nil
 //@ func (*TestScript).cmdWait
 //@   requires ts != nil
 //@   requires forall K {at(ts.background,K)} :: lo(ts.background) <= K && K < hi(ts.background) ==> at(ts.background,K).cmd != nil
